@@ -29,6 +29,7 @@ class XmlContext:
         cache: Internal cache for binding metadata instances
         xsi_cache: Internal cache for xsi types to class locations
         sys_modules: The number of loaded sys modules
+        unsupported: Classes whose binding metadata can not be built
     """
 
     __slots__ = (
@@ -38,6 +39,7 @@ class XmlContext:
         "element_name_generator",
         "models_package",
         "sys_modules",
+        "unsupported",
         "xsi_cache",
     )
 
@@ -55,6 +57,7 @@ class XmlContext:
 
         self.cache: dict[type, XmlMeta] = {}
         self.xsi_cache: dict[str, list[type]] = defaultdict(list)
+        self.unsupported: set[type] = set()
         self.models_package = models_package
         self.sys_modules = 0
 
@@ -62,6 +65,7 @@ class XmlContext:
         """Reset all internal caches."""
         self.cache.clear()
         self.xsi_cache.clear()
+        self.unsupported.clear()
         self.sys_modules = 0
 
     def get_builder(
@@ -288,6 +292,9 @@ class XmlContext:
         Returns:
             Whether the class contains all the field names.
         """
+        if clazz in self.unsupported:
+            return False
+
         try:
             meta = self.build(clazz)
             local_names = {
@@ -295,13 +302,9 @@ class XmlContext:
             }
             return not names.difference(local_names)
         except (XmlContextError, NameError, TypeError):
-            # The dataclass includes unsupported typing annotations
-            # Let's remove it from xsi_cache
-            builder = self.get_builder()
-            target_qname = builder.build_class_meta(clazz).target_qname
-            if target_qname and target_qname in self.xsi_cache:
-                self.xsi_cache[target_qname].remove(clazz)
-
+            # The dataclass includes unsupported typing annotations, remember
+            # it instead of removing it from the shared xsi_cache index.
+            self.unsupported.add(clazz)
             return False
 
     @classmethod
